@@ -26,7 +26,7 @@ def gen_device(rng, nmsg=None, periods=None, two=False):
         if periods is not None:
             p = periods[k]
         else:
-            p = rng.choice([-1, 1, 2, 3, 5, 10, 15, 20, 100, 1000, 65536, (1 << 31) - 1])
+            p = rng.choice([-1, 0, 0, 1, 2, 3, 5, 10, 15, 20, 100, 1000, 65536, (1 << 31) - 1])  # 0: due on every new timestamp
         # "no period" is written either as `period: -1` or by leaving the field out
         msgs.append({"name": NAMES[k], "id": rng.randint(0, 2047), "period": p, "fields": fields,
                      "omit_period": p == -1 and rng.random() < 0.6, "dev": 0})
@@ -100,6 +100,7 @@ def gen_history(rng, dev, length):
     """calls (time, value, device index); with two devices mostly the usual tick loop `ecu(t); dash(t);` (both schedulers
     called with the same timestamp), sometimes only one of them or in the other order"""
     ps = [m["period"] for m in dev["msgs"] if m["period"] > 0] or [5]
+    # (with period 0 among the messages the delta 0 - the same timestamp again - is what matters; it is always in the alphabet)
     t = 0
     out = []
     for _ in range(length):
